@@ -902,6 +902,50 @@ func (p *Program) cascade(id int) bool {
 	return false
 }
 
+// reads: does node y read node x, directly or through other nodes? mem gives, for nested joins, every
+// node that is or was a member during the round in question (n.Srcs is only the initial membership).
+func (p *Program) reads(y, x int, mem map[int][]int) bool {
+	seen := map[int]bool{}
+	var walk func(id int) bool
+	walk = func(id int) bool {
+		if seen[id] {
+			return false
+		}
+		seen[id] = true
+		n := p.node(id)
+		ds := p.deps(n)
+		if n.Kind == kNested {
+			ds = mem[id]
+		}
+		for _, d := range ds {
+			if d == x || walk(d) {
+				return true
+			}
+		}
+		return false
+	}
+	return walk(y)
+}
+
+// passOver: is the node in the set, or a pass-through shape (map, join) over a node of the set?
+func (p *Program) passOver(id int, set map[int]bool) bool {
+	if set[id] {
+		return true
+	}
+	n := p.node(id)
+	switch n.Kind {
+	case kMap:
+		return p.passOver(n.Parent, set)
+	case kJoin, kJoinU:
+		for _, s := range n.Srcs {
+			if p.passOver(s, set) {
+				return true
+			}
+		}
+	}
+	return false
+}
+
 // shapes lists the collection shapes and filter kinds a program uses (for evidence).
 func (p *Program) features() (shapes, filters []string) {
 	ss, fs := map[string]bool{}, map[string]bool{}
